@@ -820,6 +820,8 @@ class InterpBuiltins:
     def bi_was_fresh(self, args, kw, line):
         """object did not exist in the pre-state of the function under proof"""
         v = args[0]
+        if isinstance(v, SymSet):
+            return True     # a set value built by a comprehension / set(...) of this execution: not a pre-state object
         return self.bool_value(z3.Not(self.old_heap.get('alloc', arr(Ref, B))[v.ref]))
 
     def _effects_guard(self):
